@@ -374,9 +374,12 @@ def hist_models(tier, emit=True):
     inv = ["HistOK", "LookupAgree"]
     ms = [
         dict(module="Histogram", name="MC_Hist_1axis",
-             cfg=dict(constants=dict(NAxes=1, Dom=5, MaxEdges=5, Depth=q(tier, 4, 5), Emit=False), invariants=inv, properties=["RejectedNoChange"])),
+             cfg=dict(constants=dict(NAxes=1, Dom=5, MaxEdges=5, Depth=q(tier, 4, 5), Emit=False), invariants=inv, properties=["RejectedNoChange", "RefinesProof"])),
         dict(module="Histogram", name="MC_Hist_2axes",
-             cfg=dict(constants=dict(NAxes=2, Dom=3, MaxEdges=3, Depth=q(tier, 2, 3), Emit=False), invariants=inv, properties=["RejectedNoChange"])),
+             cfg=dict(constants=dict(NAxes=2, Dom=3, MaxEdges=3, Depth=q(tier, 2, 3), Emit=False), invariants=inv, properties=["RejectedNoChange", "RefinesProof"])),
+        # every grid size and every history: each count = number of observations of the history in that cell (TLAPS on HistAlg);
+        # the two models above (no VIEW: every history is a state) check the refinement
+        dict(engine="tlaps", module="HistProof", name="TLAPS_HistProof", deps=["HistAlg"]),
         dict(module="Histogram", name="MC_Hist_3axes",
              cfg=dict(constants=dict(NAxes=3, Dom=2, MaxEdges=2, Depth=q(tier, 2, 3), Emit=False), invariants=inv, properties=["RejectedNoChange"],
                       view="view")),
